@@ -128,7 +128,7 @@ __CPROVER_ensures(g_ctor - __CPROVER_old(g_ctor) == 1 && g_dtor == __CPROVER_old
 ''' + FRAME + r'''@@insert@@
 void vf_harness(void) { Array* a; int k; const T* x; Array_insert(a, k, x); VF_CANARY(); }
 ''',
-    entry='Array_insert',
+    entry='Array_insert', replay=replay.from_trace('C01/driver.cpp', ['k', 'g_j'], lambda v: ['insert_alias', 3, v['k'], v.get('g_j', 0)]),
     variants={'CAP3': ['-DCAP=3', '-DALIAS=0'], 'CAP4': ['-DCAP=4', '-DALIAS=0'], 'CAP6': ['-DCAP=6', '-DALIAS=0'],
               'CAP3_ALIAS': ['-DCAP=3', '-DALIAS=1'], 'CAP4_ALIAS': ['-DCAP=4', '-DALIAS=1']},
     kind='bounded', bound='capacity fixed per variant (3, 4, 6: crosses the 3->6, 4->8, 6->12 doubling); n, k, rc, contents symbolic', unwind=70,
@@ -154,7 +154,7 @@ __CPROVER_ensures(g_dtor - __CPROVER_old(g_dtor) == (INR ? n : 0) && g_ctor == _
 ''' + FRAME + r'''@@remove@@
 void vf_harness(void) { Array* a; int i, n; Array_remove(a, i, n); VF_CANARY(); }
 ''',
-    entry='Array_remove',
+    entry='Array_remove', replay=replay.from_trace('C01/driver.cpp', ['i', 'n'], lambda v: ['remove', 6, v['i'], v['n']]),
     variants={'CAP3': ['-DCAP=3'], 'CAP4': ['-DCAP=4'], 'CAP6': ['-DCAP=6']},
     kind='bounded', bound='capacity fixed per variant; n, i, count, rc, contents symbolic', unwind=70,
     desc='remove(i,n) / removeLast / Queue get: exactly the n elements at i are removed and destroyed once, order kept; out-of-range is a no-op',
@@ -234,7 +234,7 @@ __CPROVER_frees(g_block)
 @@assign@@
 void vf_harness(void) { Array* a; const Array* b; Array_assign(a, b); VF_CANARY(); }
 """,
-    entry='Array_assign', desc='operator=(const Array&): drop the old block (released iff last), share the new one; self-assignment is a no-op',
+    entry='Array_assign', replay=lambda r, o, work: {'concretisation': 'self-assignment variant' if 'SELF' in r.variant else 'no recipe', 'native': replay.run_native('C01/driver.cpp', ['selfassign'], work)} if 'SELF' in r.variant else {}, desc='operator=(const Array&): drop the old block (released iff last), share the new one; self-assignment is a no-op',
     functions=['Array::operator=(const Array&)', 'Array::free'], kind='bounded', bound='capacity 4; n, rc, contents symbolic', unwind=10,
     variants={'CAP4': ['-DCAP=4', '-DSELF=0'], 'CAP4_SELF': ['-DCAP=4', '-DSELF=1']})
 UNITS += [h_copy, h_dtor, h_assign]
